@@ -12,6 +12,9 @@ claimed = {
  "C12": ("typestate/pairing analysis on SSA (setup/defer-teardown pairing, set symmetry table, single filter funnel with dominance)",
          "Structural necessary conditions: single funnel behind the ignore filter, setup/teardown paired by defer on the same node and outside loops, every set filled by a Setup variant cleared by its Teardown variant under the same directive, IsEnable consults all sets with the rule. Decides that a directive's effect cannot outlive its statement/block; does not decide directive text parsing.",
          "trusts go/ssa; the directive→set table is transcribed from the property statement", "DESIGN.md §4 C12"),
+ "C18": ("lockset analysis on SSA: lock dominance/extent in ServeHTTP, handler entry who-may-call, inter-procedural shared-write analysis for goroutines started in loops",
+         "Structural necessary conditions of race freedom: the per-interpreter mutex dominates every per-request state access and is held to return; handlers enter only through ServeHTTP; no goroutine with several live instances reaches an unlocked write to shared memory. Decides lock shape for all interleavings at once; does not decide response equality with a serial order.",
+         "trusts go/ssa and static call resolution inside the module; library code assumed not to write falco state", "DESIGN.md §4 C18"),
  "C16": ("who-may-write + dominance on SSA with inter-procedural path taint (fsatomic)",
          "Structural necessary conditions: no in-place write/truncate of a path derived from the input VCL name anywhere in the module; the only mutation is rename(tmp→path) dominated by the success edges of all writes to tmp which copy the formatter's result; the formatter's possibly-nil result is tested before use. Decides the shape of the write path on all paths, not kernel behaviour.",
          "trusts go/ssa; assumes the input file is named by resolver.VCL.Name and same-directory rename is atomic", "DESIGN.md §4 C16"),
